@@ -397,4 +397,43 @@ example : Hamiltonian__dflt_matter exEnv = 7 + 25 - 13 - 48 - 1
     ∧ exEnv.kappa ≠ 0 := by
   refine ⟨?_, ?_, ?_, ?_, ?_⟩ <;> (simp only [exEnv, core_unfold, Env.zero]; norm_num)
 
+/-- FLRW point `a = 2`, `ȧ = 3`, `α = 1`, `β = 0` (spatially constant, so every x-derivative vanishes):
+`γ_ij = 4δ`, `K_ij = −aȧ δ = −6δ`, `∂_tγ_ij = 12δ`, `∂_tγ^ij = −2ȧ/a³ δ = −(3/4)δ`.  All hypotheses of
+`dtgammaup3_is_dt_inverse` hold and the key evaluates to −3/4 (the sign the oracle's FLRW witness pins). -/
+def exFLRW : Env ℚ :=
+  { (Env.zero : Env ℚ) with
+    alpha := 1,
+    gammadown3 := vec3 (vec3 4 0 0) (vec3 0 4 0) (vec3 0 0 4),
+    gammaup3 := vec3 (vec3 (1 / 4) 0 0) (vec3 0 (1 / 4) 0) (vec3 0 0 (1 / 4)),
+    Kdown3 := vec3 (vec3 (-6) 0 0) (vec3 0 (-6) 0) (vec3 0 0 (-6)),
+    Kup3 := vec3 (vec3 (-3 / 8) 0 0) (vec3 0 (-3 / 8) 0) (vec3 0 0 (-3 / 8)) }
+
+example :
+    let dtG : Fin 3 → Fin 3 → ℚ := vec3 (vec3 12 0 0) (vec3 0 12 0) (vec3 0 0 12)
+    let dtU : Fin 3 → Fin 3 → ℚ := vec3 (vec3 (-3 / 4) 0 0) (vec3 0 (-3 / 4) 0) (vec3 0 0 (-3 / 4))
+    (∀ i k : Fin 3, ∑ j, exFLRW.gammaup3 i j * exFLRW.gammadown3 j k = delta i k)
+    ∧ (∀ i k : Fin 3, ∑ j, exFLRW.gammadown3 i j * exFLRW.gammaup3 j k = delta i k)
+    ∧ Sym exFLRW.gammaup3 ∧ exFLRW.Kup3 = Kup3 exFLRW
+    ∧ (∀ i j : Fin 3, ∑ k, (dtU i k * exFLRW.gammadown3 k j + exFLRW.gammaup3 i k * dtG k j) = 0)
+    ∧ (∀ s i j : Fin 3, ∑ k, (exFLRW.D s (exFLRW.gammaup3 i k) * exFLRW.gammadown3 k j
+        + exFLRW.gammaup3 i k * exFLRW.D s (exFLRW.gammadown3 k j)) = 0)
+    ∧ (∀ i j : Fin 3, dtG i j = -2 * exFLRW.alpha * exFLRW.Kdown3 i j
+        + lieDD exFLRW.betaup3 (dβ exFLRW) (pd2 exFLRW.D exFLRW.gammadown3) exFLRW.gammadown3 i j)
+    ∧ dtgammaup3 exFLRW 0 0 = -3 / 4 := by
+  intro dtG dtU
+  refine ⟨?_, ?_, ?_, ?_, ?_, ?_, ?_, ?_⟩
+  · cases3 <;> cases3 <;> (simp only [exFLRW, Fin.sum_univ_three, delta, core_unfold]; norm_num [Fin.ext_iff])
+  · cases3 <;> cases3 <;> (simp only [exFLRW, Fin.sum_univ_three, delta, core_unfold]; norm_num [Fin.ext_iff])
+  · cases3 <;> cases3 <;> (simp only [exFLRW, core_unfold])
+  · funext a b; revert a b; cases3 <;> cases3 <;> (simp only [exFLRW, core_unfold]; norm_num)
+  · cases3 <;> cases3 <;> (simp only [dtG, dtU, exFLRW, Fin.sum_univ_three, core_unfold]; norm_num)
+  · intro s; cases3 <;> cases3 <;> (simp only [exFLRW, Env.zero, Fin.sum_univ_three, core_unfold]; norm_num)
+  · cases3 <;> cases3 <;>
+      (simp only [dtG, exFLRW, Env.zero, lieDD, pd2, dβ, Fin.sum_univ_three, core_unfold]; norm_num)
+  · simp only [exFLRW, Env.zero, core_unfold]; norm_num
+
+/-- the product-rule hypothesis `Deriv` is satisfiable (over ℚ only by the zero operator; over a differential
+field such as ℚ(t) by d/dt) — the non-trivial instance of the Layer-B hypotheses is the jet form above. -/
+example : C06Deriv.Deriv (fun _ : ℚ => (0 : ℚ)) := ⟨fun _ _ => by simp, fun _ _ => by simp⟩
+
 end AurelVerif.C06
